@@ -221,4 +221,18 @@ noncomputable def renyi2 (b : Option ℝ) (p : ℝ) : ℝ :=
   | none => -Real.log p
   | some b => -Real.log p / Real.log b
 
+/-- `stdrenyi2_entropy(..., base)` as a function of the standard deviation and the value of the coincidence probability:
+`stdpc / pc`, divided by `np.log(base)` when a base is given (linear error propagation through the logarithm) -/
+noncomputable def stdRenyi2 (b : Option ℝ) (sd p : ℝ) : ℝ :=
+  match b with
+  | none => sd / p
+  | some b => sd / p / Real.log b
+
+/-- both entropy functions validate `base` first: a base that is given and not positive is rejected (`none` = ValueError),
+whatever the table holds -/
+noncomputable def checkedBase (b : Option ℝ) (v : Option ℝ → ℝ) : Option ℝ :=
+  match b with
+  | some x => if x ≤ 0 then none else some (v (some x))
+  | none => some (v none)
+
 end Prs
